@@ -402,7 +402,7 @@ def work(rep, args):
         if len(cand_hists) > max_cands:
             cand_hists = rng.sample(cand_hists, max_cands)
         # 3. behaviours of the model with larger constants
-        nsim = 300 if quick else 12000
+        nsim = 300 if quick else 6000
         sim_ops = 10
         write_cfg(wd, "RD_sim.cfg", SIM, sim_ops, "{}", SIM_TAIL)
         sim = tlc.run(wd, "RD_run.tla", "RD_sim.cfg", workers=1, timeout=600 if quick else 1800,
